@@ -5,6 +5,7 @@ Only property theorems (and their non-vacuity examples) live here; helper lemmas
 `Wf/Lemmas/{Serde,Vint,Codec}.lean`, the model in `Wf/Model/Serde.lean`.
 -/
 import Wf.Lemmas.Codec
+import Wf.Lemmas.DecMono
 namespace Wf.Props.C26
 open Wf
 
@@ -238,5 +239,31 @@ example : (Codec.vec Codec.u16).dec ((Codec.vec Codec.u16).enc [1, 2, 300] ++ [9
   decide
 /-- a 9-byte input claiming 2^61 eight-byte elements: an error, not an abort -/
 example : (Codec.vec Codec.u64).dec (writeUsize (2 ^ 61) ++ [1, 2, 3]) = .err .eof := by decide
+
+/-! ### decoders look only at what they consume; truncated encodings never decode to the value -/
+
+theorem int_stable_under_append (n : Nat) : Mono (readLe n) := readLe_mono n
+theorem bool_stable_under_append : Mono Codec.bool.dec := readBool_mono
+theorem usize_stable_under_append : Mono Codec.usize.dec := readUsize_mono
+theorem pair_stable_under_append {α β} (a : Codec α) (b : Codec β) (ha : Mono a.dec) (hb : Mono b.dec) :
+    Mono (Codec.pair a b).dec := pair_mono a b ha hb
+theorem array_stable_under_append {α} (a : Codec α) (ha : Mono a.dec) (c : Nat) :
+    Mono (Codec.array a c).dec := readMany_mono a.size a.dec ha c
+theorem vec_stable_under_append {α} (a : Codec α) (ha : Mono a.dec) : Mono (Codec.vec a).dec :=
+  vec_mono a ha
+
+/-- every strict prefix of a vint64 size encoding is rejected or decodes to another value -/
+theorem usize_truncated (v : Nat) (hv : v < 2 ^ 64) (k : Nat) (hk : k < (writeUsize v).length)
+    (r : Bytes) : readUsize ((writeUsize v).take k) ≠ .ok v r :=
+  truncated_not_ok Codec.usize (fun v => v < 2 ^ 64) usize_roundtrip readUsize_mono v hv k hk r
+
+/-- the same for any container built from round-tripping, append-stable element codecs:
+    a truncated `Vec<T>` encoding never decodes to the vector it was cut from -/
+theorem vec_truncated {α} (a : Codec α) (va' : List α → Prop) (hr : RoundTrips (Codec.vec a) va')
+    (ha : Mono a.dec) (xs : List α) (hx : va' xs) (k : Nat) (hk : k < ((Codec.vec a).enc xs).length)
+    (r : Bytes) : (Codec.vec a).dec (((Codec.vec a).enc xs).take k) ≠ .ok xs r :=
+  truncated_not_ok (Codec.vec a) va' hr (vec_mono a ha) xs hx k hk r
+
+example : readUsize ((writeUsize 300).take 1) ≠ .ok 300 [] := usize_truncated 300 (by decide) 1 (by decide) []
 
 end Wf.Props.C26
